@@ -858,7 +858,7 @@ def classify(case, items, kind, root=None, unmatched=None):
                     return "KF-C10-G"
     return None
 
-KF_C_MIN_SPREAD = 10.0   # KF-C10-C, "root magnitudes span orders": max|r| / min|r| of the reference roots at least this
+KF_C_MIN_SPREAD = 2.0    # KF-C10-C, "root magnitudes differ": max|r| / min|r| of the reference roots at least this (forward deflation drifts when roots are not removed in increasing modulus; observed at a spread of 8 with backward error 5.5e-9: findings/C10-KF-C-spread.md; with all moduli within a factor 2 no drift above 1e-10 was ever observed)
 KEY_COUNTS = {}
 PRIM_COV = {}
 
